@@ -224,10 +224,69 @@ def same(a, b):
     return len(a) == len(b) and all(x == y for x, y in zip(a, b))
 
 
+def audit_lp_meat(r, tag, fails, pre):
+    """what the round-2 (and round-3) OPTIMISER is handed for meat must be the re-timed supply of the same run:
+    monthly series == output of the re-timing helper, cumulative cap == its running total, and both at or above
+    what the no-feed round was handed, month by month"""
+    lp = [x for x in r.get("lp_meat", []) if not x.get("capture_error")]
+    rd = (r.get("redist") or [None])[-1]
+    if rd is not None and rd["out"] is not None:
+        moved = sum(1 for a, b in zip(unhex(rd["r2"]), unhex(rd["out"])) if a != b)
+        pre["retiming_moved_meat_runs"] += 1 if moved else 0
+        pre["retiming_months_changed"] += moved
+    if len(lp) < 3 or rd is None or rd["out"] is None or [x["ty"] for x in lp[:3]] != ["to_humans", "to_animals", "to_humans"]:
+        pre["lp_meat_not_comparable"] += 1
+        return 0
+    l1, l2, l3 = lp[0], lp[1], lp[2]
+    if not (l1["add_meat"] and l2["add_meat"]):
+        pre["lp_meat_not_comparable"] += 1
+        return 0
+    pre["lp_meat_compared"] += 1
+    out = np.array(unhex(rd["out"]))
+    mon2, run2 = np.array(unhex(l2["meat_monthly"])), np.array(unhex(l2["meat_running"]))
+    mon1, run1 = np.array(unhex(l1["meat_monthly"])), np.array(unhex(l1["meat_running"]))
+    cs = np.cumsum(out)
+    scale = max(1.0, float(abs(cs[-1])))
+    key = "C18:retimed-meat-not-handed-to-round2@compute_parameters_second_round"
+    n = 5
+    if len(mon2) != len(out) or float(np.max(np.abs(mon2 - out))) > 1e-12 * scale:
+        fail(fails, key + ":monthly", "the monthly meat series the round-2 optimiser receives is not the re-timed series "
+             f"(max difference {float(np.max(np.abs(mon2 - out))) if len(mon2) == len(out) else 'length'!r})", tag, real=tag)
+    if len(run2) != len(out) or float(np.max(np.abs(run2 - cs))) > 1e-9 * scale:
+        m = int(np.argmax(np.abs(run2 - cs))) if len(run2) == len(out) else -1
+        fail(fails, key, "the cumulative meat cap the round-2 optimiser is bounded by is not the running total of the "
+             f"re-timed monthly series returned by the re-timing helper in the same run (month {m}: cap "
+             f"{float(run2[m])!r}, running total {float(cs[m])!r})", tag, real=tag)
+    tot2 = unhex(l2["meat_total"])
+    if abs(tot2 - float(cs[-1])) > 1e-9 * scale:
+        fail(fails, key + ":total", f"total meat handed to round 2 {tot2!r} differs from the re-timed total {float(cs[-1])!r}",
+             tag, real=tag)
+    key2 = "C18:round2-meat-below-no-feed-level@compute_parameters_second_round"
+    if len(run1) == len(run2):
+        d = run2 - run1
+        if float(np.min(d)) < -1e-9 * scale:
+            m = int(np.argmin(d))
+            fail(fails, key2, f"month {m}: cumulative meat handed to round 2 {float(run2[m])!r} is below the no-feed "
+                 f"level {float(run1[m])!r}", tag, real=tag)
+        d = mon2 - mon1
+        if float(np.min(d)) < -1e-9 * scale:
+            m = int(np.argmin(d))
+            fail(fails, key2 + ":monthly", f"month {m}: meat handed to round 2 {float(mon2[m])!r} is below the no-feed "
+                 f"level {float(mon1[m])!r}", tag, real=tag)
+    if l3["add_meat"]:
+        n += 1
+        mon3, run3 = np.array(unhex(l3["meat_monthly"])), np.array(unhex(l3["meat_running"]))
+        if len(mon3) != len(run3) or float(np.max(np.abs(np.cumsum(mon3) - run3))) > 1e-9 * max(1.0, float(abs(run3[-1]))):
+            fail(fails, "C18:round3-meat-cap-inconsistent@compute_parameters_third_round",
+                 "the cumulative meat cap handed to round 3 is not the running total of its monthly series", tag, real=tag)
+    return n
+
+
 def audit_real(real, fails, stats, doc_order):
     n = 0
     handoffs = 0
-    pre = {"runs": 0, "bump_precondition_holds": 0, "inc_min": None, "round2_skipped": 0, "errors": 0}
+    pre = {"runs": 0, "bump_precondition_holds": 0, "inc_min": None, "round2_skipped": 0, "errors": 0,
+           "retiming_moved_meat_runs": 0, "retiming_months_changed": 0, "lp_meat_compared": 0, "lp_meat_not_comparable": 0}
     for r in real:
         tag = {"country": r["country"], "option": r.get("option", {}), "threshold": r.get("threshold")}
         pre["runs"] += 1
@@ -264,6 +323,7 @@ def audit_real(real, fails, stats, doc_order):
             if len(run2) != len(m2) or np.max(np.abs(cs - np.array(run2))) > 1e-9 * max(1.0, float(cs[-1])):
                 fail(fails, "C18:handoff-running-total@compute_parameters_second_round",
                      "cumulative meat cap of round 2 is not the running sum of the re-timed monthly meat", tag)
+        n += audit_lp_meat(r, tag, fails, pre)
         th = r.get("third")
         for rec in r.get("bump", []):
             c = {k: unhex(rec[k]) for k in ("b", "f", "inc", "maxb", "maxf", "avail")}
